@@ -446,11 +446,69 @@ def self_contexts(tier: str, rng: random.Random):
     return bad, n
 
 
+def coerced_contexts() -> Optional[dict]:
+    """One-element contexts behind a coercer that *builds* the container from a bare value (x -> (x,), [x], {x}) and a
+    pair context behind a coercer that splits a string: what the context validates are the elements of the coerced
+    container - it accepts iff v accepts them, with v's payloads inside and v's own error at that position."""
+    from koda import Just, nothing
+    from koda_validate import (Coercer, DecimalValidator, IntValidator, ListValidator, MinLength, NTupleValidator, SetValidator, StringValidator,
+                               UniformTupleValidator, strip)
+    from koda_validate.errors import IndexErrs, SetErrs
+    from ..corr import drive
+    vs = [("StringValidator(MinLength(2), preprocessors=[strip])", lambda: StringValidator(MinLength(2), preprocessors=[strip]), ["abc", " ab ", "a", " a ", "", 5]),
+          ("IntValidator()", lambda: IntValidator(), [1, "1", True, None]),
+          ("DecimalValidator()", lambda: DecimalValidator(), ["1.5", 3, "x", 2.5])]
+
+    def wrapping(build, kinds):
+        return Coercer(lambda x: Just(build(x)) if type(x) in kinds else nothing, set(kinds))
+    scal = (str, int, bool, float, type(None))
+    ctxs = [("NTupleValidator.typed(fields=(v,), coerce=x -> (x,))", lambda v: NTupleValidator.typed(fields=(v,), coerce=wrapping(lambda x: (x,), scal)), tuple),
+            ("UniformTupleValidator(v, coerce=x -> (x,))", lambda v: UniformTupleValidator(v, coerce=wrapping(lambda x: (x,), scal)), tuple),
+            ("ListValidator(v, coerce=x -> [x])", lambda v: ListValidator(v, coerce=wrapping(lambda x: [x], scal)), list),
+            ("SetValidator(v, coerce=x -> {x})", lambda v: SetValidator(v, coerce=wrapping(lambda x: {x}, scal)), set)]
+    for vname, mkv, xs in vs:
+        for cname, mkc, kind in ctxs:
+            for x in xs:
+                for mode in ("sync", "async"):
+                    v = mkv()
+                    c = mkc(v)
+                    alone = v(x) if mode == "sync" else drive(v.validate_async(x))
+                    try:
+                        r = c(x) if mode == "sync" else drive(c.validate_async(x))
+                    except Exception as e:  # noqa
+                        return {"signature": "C18:coerced-context", "what": f"{cname} with v = {vname} ({mode}) on {x!r} raised {e!r}"}
+                    where = f"{cname} with v = {vname} ({mode}) on {x!r}: v alone gives {alone!r}, the context gives {r!r}"
+                    if alone.is_valid:
+                        if not r.is_valid or type(r.val) is not kind or list(r.val) != [alone.val]:
+                            return {"signature": "C18:coerced-context", "what": where}
+                    else:
+                        e = r.val if r.is_valid else r.err_type
+                        inner = e.indexes.get(0) if isinstance(e, IndexErrs) else (e.item_errs[0] if isinstance(e, SetErrs) and e.item_errs else None)
+                        if r.is_valid or inner is None or inner != alone:
+                            return {"signature": "C18:coerced-context", "what": where}
+    # a pair behind a coercer that splits "ab,cd"
+    split = Coercer(lambda x: Just(tuple(x.split(","))) if type(x) is str and x.count(",") == 1 else nothing, {str})
+    for mode in ("sync", "async"):
+        v = StringValidator(MinLength(2), preprocessors=[strip])
+        c = NTupleValidator.typed(fields=(v, v), coerce=split)
+        for x, want in (("ab,cd", ("ab", "cd")), (" ab , cd ", ("ab", "cd")), ("a,cd", None), ("ab,c", None)):
+            r = c(x) if mode == "sync" else drive(c.validate_async(x))
+            parts = [v(p_) for p_ in x.split(",")]
+            ok = (r.is_valid and r.val == want) if want is not None else (not r.is_valid and isinstance(r.err_type, IndexErrs)
+                                                                        and {i: e_ for i, e_ in r.err_type.indexes.items()} == {i: p_ for i, p_ in enumerate(parts) if not p_.is_valid})
+            if not ok:
+                return {"signature": "C18:coerced-context", "what": f"NTupleValidator.typed(fields=(v, v), coerce=split at ',') ({mode}) on {x!r}: the parts alone give {parts!r}, the context gives {r!r}"}
+    return None
+
+
 def run(tier: str, rng: random.Random, proof_ok: bool) -> dict:
     rep = run_families("C18", cases(tier, rng), rng, oracle, nontrivial)
     bad, n = self_contexts(tier, rng)
     rep["violations"] += bad
     rep["coverage"]["self_containing_contexts"] = n
+    cc = coerced_contexts()
+    if cc:
+        rep["violations"].append({"kind": "oracle", **cc, "replay_case": {"coerced_contexts": True}})
     from .hist import odd_equality_violation
     oe = odd_equality_violation("C18")     # a context returns the inner verdict also for values with unusual equality
     if oe:
@@ -466,6 +524,10 @@ def replay(path: str) -> int:
         r = self_context(rc["selfctx"], from_json(rc["x"]), rc["mode"])
         print("property violated on this input: " + r if r else "property holds on this input")
         return 1 if r else 0
+    if isinstance(rc, dict) and rc.get("coerced_contexts"):
+        r_ = coerced_contexts()
+        print("property violated: " + r_["what"] if r_ else "property holds for contexts behind container-building coercers")
+        return 1 if r_ else 0
     from .hist import replay_special
     r = replay_special(rc, "C18") if isinstance(rc, dict) else None
     return r if r is not None else generic_replay(path, oracle)
